@@ -11,6 +11,9 @@
                     // ... and it is the next one: no full window was skipped before it, none is dropped after it
                     &&& nfb(s, w, old(self).frontier(), a as int)
                     &&& nfb(s, w, b - w + 1, final(self).frontier())
+                    // ... runs come strictly left to right: it starts at or after the frontier, and the frontier moves past its last window start
+                    &&& old(self).frontier() <= a
+                    &&& b - w + 1 <= final(self).frontier()
                     RUN_EXTRA
                 },
                 None => {
